@@ -7,6 +7,7 @@ package sx
 import (
 	"bytes"
 	"fmt"
+	"go/token"
 	"go/types"
 	"math"
 	"math/bits"
@@ -559,6 +560,72 @@ func init() {
 			return 64 - n.(int)
 		},
 		"internal/abi.NoEscape": func(i *interpreter, fr *frame, a []value) value { return a[0] },
+		// sync.Map: modelled as an ordered map kept beside the receiver. Every
+		// mutation of a sync.Map is shared mutable state by construction: it is
+		// reported to the package-level-state monitor.
+		"(*sync.Map).Load": func(i *interpreter, fr *frame, a []value) value {
+			m := i.syncMap(a[0], false)
+			if m != nil {
+				if v, ok := m.lookup(i.concKey(a[1])); ok {
+					return tuple{v, true}
+				}
+			}
+			return tuple{iface{}, false}
+		},
+		"(*sync.Map).Store": func(i *interpreter, fr *frame, a []value) value {
+			i.noteSharedWrite("sync.Map.Store")
+			i.mapInsert(i.syncMap(a[0], true), i.concKey(a[1]), a[2])
+			return nil
+		},
+		"(*sync.Map).LoadOrStore": func(i *interpreter, fr *frame, a []value) value {
+			m := i.syncMap(a[0], true)
+			k := i.concKey(a[1])
+			if v, ok := m.lookup(k); ok {
+				return tuple{v, true}
+			}
+			i.noteSharedWrite("sync.Map.LoadOrStore")
+			i.mapInsert(m, k, a[2])
+			return tuple{a[2], false}
+		},
+		"(*sync.Map).Delete": func(i *interpreter, fr *frame, a []value) value {
+			if m := i.syncMap(a[0], false); m != nil {
+				i.noteSharedWrite("sync.Map.Delete")
+				i.mapDelete(m, i.concKey(a[1]))
+			}
+			return nil
+		},
+		"(*sync.Once).Do": func(i *interpreter, fr *frame, a []value) value {
+			cell := a[0].(*value)
+			if i.onceDone == nil {
+				i.onceDone = map[*value]bool{}
+			}
+			if !i.onceDone[cell] {
+				i.onceDone[cell] = true
+				i.noteSharedWrite("sync.Once.Do")
+				call(i, fr, token.NoPos, a[1], nil)
+			}
+			return nil
+		},
+		"(*sync.Pool).Get": func(i *interpreter, fr *frame, a []value) value {
+			// an empty pool: call New if set
+			p := (*a[0].(*value)).(structure)
+			for _, f := range p {
+				switch fn := f.(type) {
+				case *closure:
+					if fn != nil {
+						return call(i, fr, token.NoPos, fn, nil)
+					}
+				case *ssa.Function:
+					if fn != nil {
+						return call(i, fr, token.NoPos, fn, nil)
+					}
+				}
+			}
+			return iface{}
+		},
+		"(*sync.Pool).Put": func(i *interpreter, fr *frame, a []value) value { return nil },
+		"sort.Slice":       func(i *interpreter, fr *frame, a []value) value { return i.sortSlice(fr, a[0], a[1]) },
+		"sort.SliceStable": func(i *interpreter, fr *frame, a []value) value { return i.sortSlice(fr, a[0], a[1]) },
 		"internal/bytealg.MakeNoZero": func(i *interpreter, fr *frame, a []value) value {
 			n := i.concInt(a[0])
 			out := make([]value, n)
@@ -900,6 +967,14 @@ func (i *interpreter) parseIntModel(s value) (value, value) {
 		}
 		return v, iface{}
 	}
+	if strLen(s) != 17 {
+		// not a number-text token: decide by the real strconv on every feasible content
+		v, err := strconv.Atoi(i.concString(s))
+		if err != nil {
+			return v, iface{errorType, err.Error()}
+		}
+		return v, iface{}
+	}
 	i.noteStub("number-text-model(parse int)")
 	w, ok := i.parseModel('i', s)
 	if w != nil && i.branch(ok) {
@@ -910,6 +985,13 @@ func (i *interpreter) parseIntModel(s value) (value, value) {
 
 func (i *interpreter) parseFloatModel(s, bits value) (value, value) {
 	if deepConcrete(s) {
+		v, err := strconv.ParseFloat(i.concString(s), int(i.concInt(bits)))
+		if err != nil {
+			return v, iface{errorType, err.Error()}
+		}
+		return v, iface{}
+	}
+	if strLen(s) != 17 {
 		v, err := strconv.ParseFloat(i.concString(s), int(i.concInt(bits)))
 		if err != nil {
 			return v, iface{errorType, err.Error()}
@@ -962,4 +1044,50 @@ func (i *interpreter) len64(x value) value {
 		r = b.Ite(b.BVCmp(smt.OULE, b.BVConst(uint64(1)<<uint(k), 64), s.T), b.BVConst(uint64(k+1), 64), r)
 	}
 	return i.mk(r, types.Int)
+}
+
+// syncMap returns the ordered map standing in for a *sync.Map receiver.
+func (i *interpreter) syncMap(recv value, create bool) *omap {
+	cell := recv.(*value)
+	if i.syncMaps == nil {
+		i.syncMaps = map[*value]*omap{}
+	}
+	m := i.syncMaps[cell]
+	if m == nil && create {
+		m = makeMap(types.NewInterfaceType(nil, nil), 0).(*omap)
+		i.syncMaps[cell] = m
+	}
+	return m
+}
+
+// noteSharedWrite records a mutation of process-wide shared state.
+func (i *interpreter) noteSharedWrite(what string) {
+	if i.inInit || i.ps == nil {
+		return
+	}
+	i.res.GlobalWrites[what+" @ "+i.curPosString()]++
+	i.ps.sharedWrites++
+}
+
+// sortSlice: insertion sort driven by the program's less function (stable).
+func (i *interpreter) sortSlice(fr *frame, x, less value) value {
+	xs := x.(iface).v.([]value)
+	lt := func(a, b int) bool {
+		r := call(i, fr, token.NoPos, less, []value{a, b})
+		switch c := r.(type) {
+		case bool:
+			return c
+		case *Sym:
+			return i.branch(c.T)
+		}
+		panic("sort.Slice: less did not return a bool")
+	}
+	for k := 1; k < len(xs); k++ {
+		for j := k; j > 0 && lt(j, j-1); j-- {
+			t := xs[j]
+			i.writeCell(&xs[j], xs[j-1])
+			i.writeCell(&xs[j-1], t)
+		}
+	}
+	return nil
 }
